@@ -54,7 +54,20 @@ def _ds_of(a, b):
 def _more(o, a, b):
     """operations beyond the propagation table; returns a list of extra live objects to watch (may be empty)"""
     da = A.da
-    if o == "fillna_int":
+    if o == "median_tuple":
+        a.median(axis=("x", "y"))
+        a.T.median(axis=("y", "x"))
+    elif o == "median_list_skipna":
+        a.median(axis=[0, 1], skipna=True)
+    elif o == "sum_tuple":
+        a.sum(axis=("y", "x"))
+        a.mean(axis=("x", "y"), skipna=True)
+    elif o == "argmax_tuple":
+        a.argmax(axis=("x", "y"), skipna=True)
+    elif o == "flatten_then_median":
+        a.flatten().median(axis=0)
+        a.flatten(("y", "x")).median(axis=0, skipna=True)
+    elif o == "fillna_int":
         a.fillna(0)
     elif o == "setna_int_value":
         a.setna(4)
